@@ -50,6 +50,45 @@ def herd_obs(fm, feed_avail, grass_avail, tag):
                 feed_avail=fl(feed_avail.kcals), grass_avail=fl(grass_avail.kcals), oid=id(fm))
 
 
+def lp_obs(opt, kind, variables, z, min_cons=None):
+    c = opt.consts_for_optimizer
+    tc = opt.time_consts
+    n = c["NMONTHS"]
+    inp = c["inputs"]
+    consts = dict(
+        NMONTHS=n, POP=float(c["POP"]), need=float(c["BILLION_KCALS_NEEDED"]), KCALS_MONTHLY=float(c["KCALS_MONTHLY"]),
+        KCALS_DAILY=float(c["KCALS_DAILY"]), store=bool(c["STORE_FOOD_BETWEEN_YEARS"]),
+        add=dict(seaweed=bool(c["ADD_SEAWEED"]), crops=bool(c["ADD_OUTDOOR_GROWING"]), sf=bool(c["ADD_STORED_FOOD"]),
+                 meat=bool(c["ADD_MEAT"]), scp=bool(c["ADD_METHANE_SCP"]), cs=bool(c["ADD_CELLULOSIC_SUGAR"])),
+        waste=dict(sf=float(c["STORED_FOOD_WASTE_RETAIL"]), crops=float(c["CROP_WASTE_RETAIL"]), meat=float(c["MEAT_WASTE_RETAIL"]),
+                   scp=float(c["SCP_RETAIL_WASTE"]), cs=float(c["CELL_SUGAR_RETAIL_WASTE"]), seaweed=float(c["SEAWEED_WASTE_RETAIL"])),
+        sf_initial=float(np.asarray(c["stored_food"].initial_available.kcals).reshape(-1)[0]),
+        meat_total=float(c["meat_summed_consumption"]),
+        seaweed=dict(initial=float(c["INITIAL_SEAWEED"]), kcals=float(c["SEAWEED_KCALS"]), harvest_loss=float(c["HARVEST_LOSS"]),
+                     min_density=float(c["MINIMUM_DENSITY"]), max_density=float(c["MAXIMUM_DENSITY"]),
+                     initial_area=float(c["INITIAL_BUILT_SEAWEED_AREA"])),
+        caps={k: float(inp[k]) for k in inp if k.startswith("MAX_") and "_AS_PERCENT_KCALS_" in k},
+        T=float(inp["MINIMUM_PERCENT_FED_BEFORE_NONHUMAN_CONSUMPTION_ALLOWED"]), cc=inp["COUNTRY_CODE"])
+    series = dict(
+        crops=fl(tc["outdoor_crops"].production.kcals), meat=fl(tc["each_month_meat_slaughtered"].kcals),
+        meat_running=fl(tc["max_consumed_culled_kcals_each_month"]), milk=fl(tc["milk_kcals"]),
+        fish=fl(tc["fish"].to_humans.kcals), greenhouse=fl(tc["greenhouse_crops"].kcals), scp=fl(tc["methane_scp"].kcals),
+        cs=fl(tc["cellulosic_sugar"].kcals), built_area=fl(tc["built_area"]), growth=fl(tc["growth_rates_monthly"]),
+        feed=fl(tc["feed"].kcals), biofuel=fl(tc["biofuel"].kcals))
+    if kind == "A":
+        series["max_feed"] = fl(tc["max_feed_that_could_be_used"].kcals)
+        series["max_biofuel"] = fl(tc["max_biofuel_that_could_be_used"].kcals)
+    names = ["stored_food_start", "stored_food_end", "stored_food_to_humans", "stored_food_feed", "stored_food_biofuel",
+             "crops_food_storage", "crops_food_consumed", "crops_food_to_humans", "crops_food_feed", "crops_food_biofuel",
+             "meat_start", "meat_end", "meat_eaten", "methane_scp_to_humans", "methane_scp_feed", "methane_scp_biofuel",
+             "cellulosic_sugar_to_humans", "cellulosic_sugar_feed", "cellulosic_sugar_biofuel", "seaweed_wet_on_farm",
+             "seaweed_to_humans", "seaweed_feed", "seaweed_biofuel", "used_area", "consumed_kcals"]
+    vs = {nm: [val(variables[nm][m]) for m in range(n)] for nm in names}
+    ob = dict(kind=kind, consts=consts, series=series, vars=vs, z=float(z), obj_var=val(variables["objective_function"]))
+    if min_cons is not None:
+        ob["min_cons"] = {k: fl(v.in_units_bil_kcals_thou_tons_thou_tons_per_month().kcals) for k, v in min_cons.items()}
+    return ob
+
 def install():
     import pulp
     from src.food_system import animal_populations as ap
@@ -150,45 +189,6 @@ def install():
         return st
 
     pulp.LpProblem.solve = w_solve
-
-    def lp_obs(opt, kind, variables, z, min_cons=None):
-        c = opt.consts_for_optimizer
-        tc = opt.time_consts
-        n = c["NMONTHS"]
-        inp = c["inputs"]
-        consts = dict(
-            NMONTHS=n, POP=float(c["POP"]), need=float(c["BILLION_KCALS_NEEDED"]), KCALS_MONTHLY=float(c["KCALS_MONTHLY"]),
-            KCALS_DAILY=float(c["KCALS_DAILY"]), store=bool(c["STORE_FOOD_BETWEEN_YEARS"]),
-            add=dict(seaweed=bool(c["ADD_SEAWEED"]), crops=bool(c["ADD_OUTDOOR_GROWING"]), sf=bool(c["ADD_STORED_FOOD"]),
-                     meat=bool(c["ADD_MEAT"]), scp=bool(c["ADD_METHANE_SCP"]), cs=bool(c["ADD_CELLULOSIC_SUGAR"])),
-            waste=dict(sf=float(c["STORED_FOOD_WASTE_RETAIL"]), crops=float(c["CROP_WASTE_RETAIL"]), meat=float(c["MEAT_WASTE_RETAIL"]),
-                       scp=float(c["SCP_RETAIL_WASTE"]), cs=float(c["CELL_SUGAR_RETAIL_WASTE"]), seaweed=float(c["SEAWEED_WASTE_RETAIL"])),
-            sf_initial=float(np.asarray(c["stored_food"].initial_available.kcals).reshape(-1)[0]),
-            meat_total=float(c["meat_summed_consumption"]),
-            seaweed=dict(initial=float(c["INITIAL_SEAWEED"]), kcals=float(c["SEAWEED_KCALS"]), harvest_loss=float(c["HARVEST_LOSS"]),
-                         min_density=float(c["MINIMUM_DENSITY"]), max_density=float(c["MAXIMUM_DENSITY"]),
-                         initial_area=float(c["INITIAL_BUILT_SEAWEED_AREA"])),
-            caps={k: float(inp[k]) for k in inp if k.startswith("MAX_") and "_AS_PERCENT_KCALS_" in k},
-            T=float(inp["MINIMUM_PERCENT_FED_BEFORE_NONHUMAN_CONSUMPTION_ALLOWED"]), cc=inp["COUNTRY_CODE"])
-        series = dict(
-            crops=fl(tc["outdoor_crops"].production.kcals), meat=fl(tc["each_month_meat_slaughtered"].kcals),
-            meat_running=fl(tc["max_consumed_culled_kcals_each_month"]), milk=fl(tc["milk_kcals"]),
-            fish=fl(tc["fish"].to_humans.kcals), greenhouse=fl(tc["greenhouse_crops"].kcals), scp=fl(tc["methane_scp"].kcals),
-            cs=fl(tc["cellulosic_sugar"].kcals), built_area=fl(tc["built_area"]), growth=fl(tc["growth_rates_monthly"]),
-            feed=fl(tc["feed"].kcals), biofuel=fl(tc["biofuel"].kcals))
-        if kind == "A":
-            series["max_feed"] = fl(tc["max_feed_that_could_be_used"].kcals)
-            series["max_biofuel"] = fl(tc["max_biofuel_that_could_be_used"].kcals)
-        names = ["stored_food_start", "stored_food_end", "stored_food_to_humans", "stored_food_feed", "stored_food_biofuel",
-                 "crops_food_storage", "crops_food_consumed", "crops_food_to_humans", "crops_food_feed", "crops_food_biofuel",
-                 "meat_start", "meat_end", "meat_eaten", "methane_scp_to_humans", "methane_scp_feed", "methane_scp_biofuel",
-                 "cellulosic_sugar_to_humans", "cellulosic_sugar_feed", "cellulosic_sugar_biofuel", "seaweed_wet_on_farm",
-                 "seaweed_to_humans", "seaweed_feed", "seaweed_biofuel", "used_area", "consumed_kcals"]
-        vs = {nm: [val(variables[nm][m]) for m in range(n)] for nm in names}
-        ob = dict(kind=kind, consts=consts, series=series, vars=vs, z=float(z), obj_var=val(variables["objective_function"]))
-        if min_cons is not None:
-            ob["min_cons"] = {k: fl(v.in_units_bil_kcals_thou_tons_thou_tons_per_month().kcals) for k, v in min_cons.items()}
-        return ob
 
     o_h = Optimizer.optimize_to_humans
     o_a = Optimizer.optimize_feed_to_animals
